@@ -518,9 +518,8 @@ Conversion<Unit::TransportEnergyConsumption, Unit::TransportEnergyConsumption::I
 }
 
 template <typename NumericType>
-inline const std::map<Unit::TransportEnergyConsumption,
-                      std::function<void(NumericType* values, const std::size_t size)>>
-    MapOfConversionsFromStandard<Unit::TransportEnergyConsumption, NumericType>{
+inline constexpr auto MapOfConversionsFromStandard<Unit::TransportEnergyConsumption, NumericType>{
+  MakeConversionTable<Unit::TransportEnergyConsumption, NumericType>({
       {Unit::TransportEnergyConsumption::JoulePerMetre,
        Conversions<Unit::TransportEnergyConsumption,
        Unit::TransportEnergyConsumption::JoulePerMetre>::FromStandard<NumericType>    },
@@ -588,12 +587,12 @@ inline const std::map<Unit::TransportEnergyConsumption,
       {Unit::TransportEnergyConsumption::InchPoundPerInch,
        Conversions<Unit::TransportEnergyConsumption,
        Unit::TransportEnergyConsumption::InchPoundPerInch>::FromStandard<NumericType> },
+})
 };
 
 template <typename NumericType>
-inline const std::map<Unit::TransportEnergyConsumption,
-                      std::function<void(NumericType* const values, const std::size_t size)>>
-    MapOfConversionsToStandard<Unit::TransportEnergyConsumption, NumericType>{
+inline constexpr auto MapOfConversionsToStandard<Unit::TransportEnergyConsumption, NumericType>{
+  MakeConversionTable<Unit::TransportEnergyConsumption, NumericType>({
       {Unit::TransportEnergyConsumption::JoulePerMetre,
        Conversions<Unit::TransportEnergyConsumption,
        Unit::TransportEnergyConsumption::JoulePerMetre>::ToStandard<NumericType>      },
@@ -659,6 +658,7 @@ inline const std::map<Unit::TransportEnergyConsumption,
       {Unit::TransportEnergyConsumption::InchPoundPerInch,
        Conversions<Unit::TransportEnergyConsumption,
        Unit::TransportEnergyConsumption::InchPoundPerInch>::ToStandard<NumericType>   },
+})
 };
 
 }  // namespace Internal
